@@ -4,13 +4,14 @@
    so one long -simulate run yields many behaviours.  Each step carries the action and the
    projection the replayer compares on the real trie: present key/value pairs, the stored node
    table (paths with their left/right links) and the root key. *)
-EXTENDS LegacyTrie, Json
+EXTENDS LegacyTrie, Json, FeltDomain
 
 CONSTANT MBTLen
-VARIABLE hist
-mbtvars == <<vars, hist>>
+VARIABLES hist,
+          mag    \* value-domain dimension (FeltDomain.tla): magnitude class of every abstract value, per behaviour
+mbtvars == <<vars, hist, mag>>
 
-MBTInit == Init /\ hist = <<>>
+MBTInit == Init /\ hist = <<>> /\ mag \in MagAssignments(Vals)
 
 R(S) == IF S = {} THEN {} ELSE {RandomElement(S)}
 FlipAt(k, i) == [k EXCEPT ![i] = 1 - @]
@@ -37,12 +38,13 @@ Proj == [pres |-> {[k |-> k, v |-> kv'[k]] : k \in PresentKeys(kv')},
          rootKey |-> rootKey',
          committed |-> committed']
 
-Step == SimNext /\ hist' = Append(hist, [a |-> act'] @@ Proj)
+Step == SimNext /\ hist' = Append(hist, [a |-> act', mag |-> mag] @@ Proj) /\ mag' = mag
 
 Emit ==
   /\ PrintT(ToJson(hist))
   /\ kv' = EmptyKV /\ tbl' = << >> /\ rootKey' = NoKey /\ rootDirty' = FALSE /\ diskRoot' = NoKey
   /\ dirty' = {} /\ committed' = TRUE /\ steps' = 0 /\ act' = [name |-> "Init"] /\ hist' = <<>>
+  /\ mag' \in R(MagAssignments(Vals))
 
 MBTNext == IF Len(hist) >= MBTLen THEN Emit ELSE Step
 =============================================================================
